@@ -163,6 +163,7 @@ private theorem defs_exit (s : St) (objs keep : List Nat) : (exit s objs keep).d
 def WF : Prog → Prop
   | .skip => True
   | .set _ _ _ => True
+  | .setC _ _ _ _ => True
   | .cacheSet _ _ _ => True
   | .gridSet _ _ => True
   | .seq a b => WF a ∧ WF b
@@ -208,6 +209,30 @@ theorem nested_lifo_stacks : ∀ (p : Prog), WF p → ∀ (s : St) (o : Nat),
         · trivial
         · intro h; simp [SINCE_ANYTHING, SINCE_BACKUP] at h
       · exact id
+  | .setC a x v g, _, s, o => by
+    by_cases hr : s.readOnly a = true
+    · have e : run (.setC a x v g) s = s := by simp [run, setC, hr]
+      rw [e]; exact ⟨rfl, ⟨rfl, rfl, rfl, rfl⟩, id⟩
+    · have hr' : s.readOnly a = false := by simpa using hr
+      show (setC s g a x v).1.defs = s.defs ∧ SameStacks (proj s o) (proj (setC s g a x v).1 o) ∧
+        (Good (proj s o) → Good (proj (setC s g a x v).1 o))
+      unfold setC
+      simp only [hr', Bool.false_eq_true, if_false]
+      have hgood : ∀ q : PO, q.assigned = SINCE_ANYTHING → Good q := by
+        intro q hq; unfold Good; split
+        · trivial
+        · intro h; rw [hq] at h; simp [SINCE_ANYTHING, SINCE_BACKUP] at h
+      cases g (s.vals a) v with
+      | none =>
+        refine ⟨rfl, ⟨rfl, rfl, rfl, rfl⟩, ?_⟩
+        by_cases h : o = a
+        · subst h; intro _; apply hgood; simp [proj, upd]
+        · intro hq; simpa [proj, upd, h] using hq
+      | some rm =>
+        refine ⟨rfl, ⟨rfl, rfl, rfl, rfl⟩, ?_⟩
+        by_cases h : o = a
+        · subst h; intro _; apply hgood; simp [proj, upd]
+        · intro hq; simpa [proj, upd, h] using hq
   | .cacheSet a k v, _, s, o => by
     refine ⟨rfl, ⟨rfl, rfl, rfl, rfl⟩, ?_⟩
     intro h; exact h
@@ -590,6 +615,10 @@ chain as it found it -/
 theorem defs_lifo : ∀ (p : Prog), WF p → ∀ (s : St) (d : Nat), (run p s).dbackup d = s.dbackup d
   | .skip, _, _, _ => rfl
   | .set a x v, _, s, d => by simp only [run, setP]; split <;> rfl
+  | .setC a x v g, _, s, d => by
+    simp only [run, setC]; split
+    · rfl
+    · split <;> rfl
   | .cacheSet _ _ _, _, _, _ => rfl
   | .gridSet a g, _, s, d => by simp only [run, setGrid]; split <;> rfl
   | .seq a b, hw, s, d => by simp only [run]; rw [defs_lifo b hw.2, defs_lifo a hw.1]
@@ -667,5 +696,145 @@ theorem retain_restores_descendants (root : Nat) (desc keep : List Nat) (body : 
     (run (.scope (root :: desc) keep body) s).vals o x =
       if x ∈ keep ∧ x ∈ s.defs o then (run body (enter s (root :: desc))).vals o x else s.vals o x :=
   retain_restores (root :: desc) keep body hnd hw s o (List.mem_cons_of_mem _ ho) x
+
+
+/-! ### the flag of a KEPT definition; serial numbers under pickle -/
+
+/-- the kept parameters of object `o` whose value the exit will carry over (innermost frame of `o`) -/
+def chAt (keep : List Nat) (s : St) (o : Nat) : List Nat :=
+  match s.backup o with
+  | [] => []
+  | fr :: _ => keptChanged s keep o fr
+
+private theorem dassigned_restoreObj (keep : List Nat) (s : St) (o d : Nat) :
+    (restoreObj keep s o).dassigned d = if d ∈ chAt keep s o then SINCE_ANYTHING else s.dassigned d := by
+  unfold restoreObj chAt
+  cases hb : s.backup o with
+  | nil => simp
+  | cons fr rest => simp
+
+private theorem chAt_restoreObj_other (keep : List Nat) (s : St) (a o : Nat) (h : o ≠ a) :
+    chAt keep (restoreObj keep s a) o = chAt keep s o := by
+  have hp := proj_restoreObj keep s a o
+  simp only [h, if_false] at hp
+  have h1 : (restoreObj keep s a).backup o = s.backup o := congrArg PO.backup hp
+  have h2 : (restoreObj keep s a).assigned o = s.assigned o := congrArg PO.assigned hp
+  have h3 : (restoreObj keep s a).vals o = s.vals o := congrArg PO.vals hp
+  have h4 : (restoreObj keep s a).defs = s.defs := defs_restoreObj keep s a
+  unfold chAt keptChanged
+  rw [h1, h2, h3, h4]
+
+private theorem dassigned_foldl_restore (keep : List Nat) (d : Nat) : ∀ (objs : List Nat) (s : St), objs.Nodup →
+    (objs.foldl (restoreObj keep) s).dassigned d =
+      if (∃ o ∈ objs, d ∈ chAt keep s o) then SINCE_ANYTHING else s.dassigned d
+  | [], s, _ => by simp
+  | a :: rest, s, hnd => by
+    have hnd' := List.nodup_cons.mp hnd
+    rw [List.foldl_cons, dassigned_foldl_restore keep d rest _ hnd'.2, dassigned_restoreObj]
+    have hiff : (∃ o ∈ rest, d ∈ chAt keep (restoreObj keep s a) o) ↔ (∃ o ∈ rest, d ∈ chAt keep s o) := by
+      constructor
+      · rintro ⟨o, ho, hd⟩
+        have hne : o ≠ a := by intro e; subst e; exact hnd'.1 ho
+        exact ⟨o, ho, by rwa [chAt_restoreObj_other keep s a o hne] at hd⟩
+      · rintro ⟨o, ho, hd⟩
+        have hne : o ≠ a := by intro e; subst e; exact hnd'.1 ho
+        exact ⟨o, ho, by rwa [chAt_restoreObj_other keep s a o hne]⟩
+    by_cases h1 : ∃ o ∈ rest, d ∈ chAt keep s o
+    · have h1' := hiff.mpr h1
+      have h2 : ∃ o ∈ a :: rest, d ∈ chAt keep s o := by
+        obtain ⟨o, ho, hd⟩ := h1; exact ⟨o, List.mem_cons_of_mem _ ho, hd⟩
+      simp only [h1', h2, if_true]
+    · have h1' : ¬ ∃ o ∈ rest, d ∈ chAt keep (restoreObj keep s a) o := fun h => h1 (hiff.mp h)
+      simp only [h1', if_false]
+      by_cases ha : d ∈ chAt keep s a
+      · have h2 : ∃ o ∈ a :: rest, d ∈ chAt keep s o := ⟨a, by simp, ha⟩
+        simp only [ha, h2, if_true]
+      · have h2 : ¬ ∃ o ∈ a :: rest, d ∈ chAt keep s o := by
+          rintro ⟨o, ho, hd⟩
+          rcases List.mem_cons.mp ho with e | hr
+          · subst e; exact ha hd
+          · exact h1 ⟨o, hr, hd⟩
+        simp only [ha, h2, if_false]
+
+/-- **the flag of a KEPT definition after a scope**: it is `SINCE_ANYTHING` exactly when some object of the
+scope carries a changed value of that parameter out of the scope; otherwise it is whatever the body left
+(its own back-up frame is popped without being applied). -/
+theorem def_assigned_kept (objs keep : List Nat) (body : Prog) (hnd : objs.Nodup) (s : St) (d : Nat)
+    (hk : d ∈ keep) :
+    (run (.scope objs keep body) s).dassigned d =
+      if (∃ o ∈ objs, d ∈ chAt keep (run body (enter s objs)) o) then SINCE_ANYTHING
+      else (run body (enter s objs)).dassigned d := by
+  simp only [run]
+  unfold exit
+  have : ∀ (t : St) (D : List Nat), (restoreDefs keep t D).dassigned d = t.dassigned d := by
+    intro t D; simp [restoreDefs, hk]
+  rw [this]
+  exact dassigned_foldl_restore keep d objs _ hnd
+
+/-- **retain_restores with custom setters**: assignments may go through arbitrary setter functions
+(transforming, fanning out, refusing); the restore is by snapshot, so the statement is unchanged.
+(`retain_restores` is stated for every `Prog`, and `Prog.setC` is such an assignment; this is the instance
+for a body made of one custom assignment followed by anything.) -/
+theorem retain_restores_custom (objs keep : List Nat) (g : (Nat → Nat) → Nat → Option ((Nat → Nat) × List Nat))
+    (a y v : Nat) (rest : Prog) (hnd : objs.Nodup) (hw : WF rest) (s : St) (o : Nat) (ho : o ∈ objs) (x : Nat)
+    (hx : ¬ (x ∈ keep ∧ x ∈ s.defs o)) :
+    (run (.scope objs keep (.seq (.setC a y v g) rest)) s).vals o x = s.vals o x := by
+  have h := retain_restores objs keep (.seq (.setC a y v g) rest) hnd ⟨trivial, hw⟩ s o ho x
+  rw [h, if_neg hx]
+
+/-- **pickle_preserves_serials**: a pickle round trip (and a database load, which goes through the same
+`__setstate__`) gives the new object the ORIGINAL's serial number; only the global counter moves. -/
+theorem pickle_preserves_serials (s : St) (o : Nat) :
+    (pickleObj s o).serial s.next = s.serial o ∧ (pickleObj s o).counter = s.counter + 1 ∧
+    ∀ o', o' < s.next → (pickleObj s o).serial o' = s.serial o' := by
+  refine ⟨by simp [pickleObj, upd], rfl, ?_⟩
+  intro o' h; have : o' ≠ s.next := Nat.ne_of_lt h
+  simp [pickleObj, upd, this]
+
+/-- serial numbers pairwise distinct among a set of live objects (a tree) -/
+def UniqueOn (s : St) (live : List Nat) : Prop :=
+  ∀ a ∈ live, ∀ b ∈ live, s.serial a = s.serial b → a = b
+
+/-- **the uniqueness that IS true under pickle**: if the original is discarded (the unpickled object takes
+its place among the live objects), serial numbers stay pairwise distinct. -/
+theorem pickle_unique_if_discarded (s : St) (live : List Nat) (o : Nat) (hnd : live.Nodup)
+    (hl : ∀ a ∈ live, a < s.next) (hu : UniqueOn s live) (ho : o ∈ live) :
+    UniqueOn (pickleObj s o) (s.next :: live.erase o) := by
+  obtain ⟨p1, _, p3⟩ := pickle_preserves_serials s o
+  have hmem : ∀ a, a ∈ live.erase o → a ∈ live := fun a h => List.mem_of_mem_erase h
+  have hno : o ∉ live.erase o := hnd.not_mem_erase
+  intro a ha b hb hab
+  rcases List.mem_cons.mp ha with ea | ha' <;> rcases List.mem_cons.mp hb with eb | hb'
+  · rw [ea, eb]
+  · subst ea
+    rw [p1, p3 b (hl b (hmem b hb'))] at hab
+    have := hu o ho b (hmem b hb') hab
+    subst this; exact absurd hb' hno
+  · subst eb
+    rw [p1, p3 a (hl a (hmem a ha'))] at hab
+    have := hu a (hmem a ha') o ho hab
+    subst this; exact absurd ha' hno
+  · rw [p3 a (hl a (hmem a ha')), p3 b (hl b (hmem b hb'))] at hab
+    exact hu a (hmem a ha') b (hmem b hb') hab
+
+/-- **the counter-example**: keeping BOTH the original and its unpickled twin alive gives two live objects
+with one serial number (by design: pickling is how objects travel between processes and the database). -/
+theorem pickle_keeping_both_not_unique (s : St) (o : Nat) (ho : o < s.next) :
+    ¬ UniqueOn (pickleObj s o) [o, s.next] := by
+  intro h
+  have p := pickle_preserves_serials s o
+  have e : (pickleObj s o).serial o = (pickleObj s o).serial s.next := by rw [p.1, p.2.2 o ho]
+  have := h o (by simp) s.next (by simp) e
+  omega
+
+private def s2 : St := create (create St.empty [] none) [] none
+
+/-- non-vacuity: two created objects, the first one pickled and discarded -/
+example : UniqueOn (pickleObj s2 0) (s2.next :: [0, 1].erase 0) :=
+  pickle_unique_if_discarded s2 [0, 1] 0 (by decide)
+    (by intro a ha; simp at ha; rcases ha with e | e <;> subst e <;> decide)
+    (by intro a ha b hb h; simp at ha hb; rcases ha with e | e <;> rcases hb with f | f <;> subst e <;> subst f <;>
+          first | rfl | (exfalso; revert h; decide))
+    (by simp)
 
 end ArmiVerif.Params
